@@ -1148,13 +1148,89 @@ emitclass(int class, struct value *v)
 }
 
 /* XXX: need to consider _Alignas on struct members */
+/*
+Print the member list of an aggregate type description (when `print` is
+set) and return the alignment QBE derives from it. QBE places each listed
+member at the next multiple of its alignment, so storage that would not
+come out right this way (unnamed bit-fields, bit-field units that overlap
+another member, packed or over-aligned members) is described as bytes.
+*/
+static int
+typemembers(struct type *t, bool print)
+{
+	struct member *m, *other;
+	struct type *sub;
+	unsigned long long off, end;
+	int align;
+
+	align = 1;
+	for (m = t->u.structunion.members, off = 0, end = 0; m;) {
+		if (t->kind == TYPESTRUCT) {
+			/* look for a subsequent member with a larger storage unit */
+			for (other = m->next; other; other = other->next) {
+				if (other->offset >= ALIGNUP(m->offset + 1, 8))
+					break;
+				if (other->offset < m->offset || other->offset == m->offset && other->type->size > m->type->size)
+					m = other;
+			}
+			off = m->offset + m->type->size;
+		} else if (print) {
+			fputs("{ ", stdout);
+		}
+		for (sub = m->type; sub->kind == TYPEARRAY; sub = sub->base)
+			;
+		if (t->kind == TYPESTRUCT && (ALIGNUP(end, sub->align) != m->offset || sub->align > t->align)) {
+			if (m->offset > end && print)
+				printf("b %llu, ", m->offset - end);
+			if (m->offset % sub->align || sub->align > t->align) {
+				if (print)
+					printf("b %llu, ", m->type->size);
+				goto next;
+			}
+		}
+		if (align < sub->align)
+			align = sub->align;
+		if (print) {
+			emitclass(qbetype(sub).data, sub->value);
+			if (m->type->size > sub->size)
+				printf(" %llu", m->type->size / sub->size);
+			fputs(t->kind == TYPESTRUCT ? ", " : " } ", stdout);
+		}
+		if (t->kind != TYPESTRUCT) {
+			if (end < m->type->size)
+				end = m->type->size;
+			m = m->next;
+			continue;
+		}
+	next:
+		end = off;
+		/* skip subsequent members contained within the same storage unit */
+		while ((m = m->next) && m->offset < off) {
+			if (m->offset + m->type->size > off) {
+				/* a bit-field unit that begins inside the previous member */
+				if (print)
+					printf("b %llu, ", m->offset + m->type->size - off);
+				end = off = m->offset + m->type->size;
+			}
+		}
+	}
+	if (print) {
+		/* storage after the last member: unnamed bit-fields */
+		off = align < t->align ? t->align : align;  /* the header gives the larger one */
+		if (t->kind == TYPEUNION && ALIGNUP(end, off) < t->size)
+			printf("{ b %llu } ", t->size);
+		if (t->kind == TYPESTRUCT && end < t->size && ALIGNUP(end, off) != t->size)
+			printf("b %llu, ", t->size - end);
+	}
+	return align;
+}
+
 static void
 emittype(struct type *t)
 {
 	static unsigned id;
-	struct member *m, *other;
+	struct member *m;
 	struct type *sub;
-	unsigned long long off;
 
 	if (t->value || t->kind != TYPESTRUCT && t->kind != TYPEUNION)
 		return;
@@ -1173,35 +1249,11 @@ emittype(struct type *t)
 		printf(" = align %d { %llu }\n", t->align, t->size);
 		return;
 	}
-	fputs(" = { ", stdout);
-	for (m = t->u.structunion.members, off = 0; m;) {
-		if (t->kind == TYPESTRUCT) {
-			/* look for a subsequent member with a larger storage unit */
-			for (other = m->next; other; other = other->next) {
-				if (other->offset >= ALIGNUP(m->offset + 1, 8))
-					break;
-				if (other->offset <= m->offset)
-					m = other;
-			}
-			off = m->offset + m->type->size;
-		} else {
-			fputs("{ ", stdout);
-		}
-		for (sub = m->type; sub->kind == TYPEARRAY; sub = sub->base)
-			;
-		emitclass(qbetype(sub).data, sub->value);
-		if (m->type->size > sub->size)
-			printf(" %llu", m->type->size / sub->size);
-		if (t->kind == TYPESTRUCT) {
-			fputs(", ", stdout);
-			/* skip subsequent members contained within the same storage unit */
-			do m = m->next;
-			while (m && m->offset < off);
-		} else {
-			fputs(" } ", stdout);
-			m = m->next;
-		}
-	}
+	fputs(" = ", stdout);
+	if (typemembers(t, false) < t->align)
+		printf("align %d ", t->align);
+	fputs("{ ", stdout);
+	typemembers(t, true);
 	puts("}");
 }
 
